@@ -72,6 +72,14 @@ def _materialize(expr, optimize_graph=None):
         optimize_graph = config.get("array.optimize-graph", True)
     if isinstance(expr, RootAlias):
         return expr  # only ever built here, over an already-materialized tree
+    from dask_array._expr import FinalizeComputeArray
+
+    if isinstance(expr, FinalizeComputeArray):
+        # Its single output key is ``name`` itself, not a block grid, so it
+        # cannot be pinned by a (block-keyed) RootAlias: materialize the
+        # wrapped array and finalize that.
+        inner = _materialize(expr.arr, optimize_graph)
+        return expr if inner is expr.arr else FinalizeComputeArray(inner)
     name = expr._name
     chunks = expr.chunks
 
